@@ -59,6 +59,9 @@ def _prep(ctx, c):
     if not b.ok:
         ctx.discard("conditioning values not representable")
         return None
+    if b.krige.cond_no <= b.krige.drift_no + int(b.unbiased):
+        ctx.discard("not more conditions than unbiasedness constraints (singular system)")
+        return None
     return b
 
 
@@ -68,7 +71,11 @@ def check_exact(ctx, c):
         return
     if c["cseed"] % 3 == 0:
         # history: in-place model change followed by the documented refresh
-        c = kc.refresh_with_changed_model(c, b, b.rng)
+        try:
+            c = kc.refresh_with_changed_model(c, b, b.rng)
+        except np.linalg.LinAlgError:
+            ctx.discard("singular kriging system (plain inverse requested)")
+            return
         ctx.event("refreshed_after_model_change")
     est, var, post, cond, _ = kc.oracle(c, b)
     if cond > 1e9 or not np.all(np.isfinite(post)):
@@ -104,7 +111,8 @@ def check_exact(ctx, c):
         mech = {"variant": c["variant"], "geo": c["geo"], "exact_flag": c["exact"], "nugget": md["nugget"] > 0, "offset": offset > 0,
                 "norm": c["norm"] != "Normalizer", "mean": c["mean"], "trend": c["trend"] != "none"}
         # raw (normalised, detrended) values
-        slope = 0.0 if not offset else 1e-9 * np.sqrt(fdim) * 50 * max(1.0, common.maxabs(b.z)) / min(1.0, md["len_scale"])
+        # next to a datum the interpolant moves with its gradient, |d(weights)/dx| <= |K^-1| |dk/dx| ~ cond / len_scale
+        slope = 0.0 if not offset else 1e-9 * np.sqrt(fdim) * 50 * max(1.0, common.maxabs(b.z)) / min(1.0, md["len_scale"]) * max(1.0, cond / 100.0)
         if md["name"] in ("Exponential", "Stable", "Matern", "TPLExponential", "TPLStable", "Linear", "Circular", "Spherical", "HyperSpherical",
                           "SuperSpherical", "TPLSimple", "TPLGaussian", "Integral") and offset and md["nugget"] == 0.0:
             # non-differentiable at the origin: the field next to a datum moves with (offset/len)^(2H) or linearly
